@@ -59,6 +59,14 @@ type Gen struct {
 	// Trace records the constructors chosen, "Type.Arm".
 	Trace   []string
 	topUsed bool
+	// Exotic (opt-in, default off): cells in reference positions are now and
+	// then exotic cells (see exotic.go). Consumes no randomness when off.
+	Exotic bool
+	// LongLists (opt-in, default off): lists now and then take their longest
+	// forms (see exotic.go). Consumes no randomness when off.
+	LongLists bool
+	// ExoticSeen counts the exotic cells placed (coverage fact).
+	ExoticSeen int
 }
 
 func NewGen(r *mon.Rng) *Gen { return &Gen{R: r, MaxDepth: 5, TopArm: -1, Bound: -1} }
@@ -269,9 +277,17 @@ func (g *Gen) fill(v reflect.Value, tag string, depth int) {
 	// ---- exact types
 	switch t {
 	case tCell:
+		if g.Exotic && g.R.Chance(1, 2) {
+			v.Set(reflect.ValueOf(*g.exoticCell(tag != tagViaPointer, true)))
+			return
+		}
 		v.Set(reflect.ValueOf(*g.SmallCell(0)))
 		return
 	case tAny:
+		if g.Exotic && tag == tagBehindRef && g.R.Chance(1, 2) {
+			v.Set(reflect.ValueOf(tlb.Any(*g.exoticCell(true, false))))
+			return
+		}
 		v.Set(reflect.ValueOf(tlb.Any(*g.SmallCell(0))))
 		return
 	case tBitString:
@@ -410,10 +426,14 @@ func (g *Gen) fill(v reflect.Value, tag string, depth int) {
 			return
 		case "EitherRef":
 			v.Field(0).SetBool(g.R.Bool())
-			g.fill(v.Field(1), "", depth+1)
+			if v.Field(0).Bool() {
+				g.fill(v.Field(1), tagBehindRef, depth+1)
+			} else {
+				g.fill(v.Field(1), "", depth+1)
+			}
 			return
 		case "Ref":
-			g.fill(v.Field(0), "", depth+1)
+			g.fill(v.Field(0), tagBehindRef, depth+1)
 			return
 		case "Hashmap", "HashmapE":
 			g.hashmap(v, genericName(t) == "Hashmap", depth)
@@ -479,6 +499,9 @@ func (g *Gen) fill(v reflect.Value, tag string, depth int) {
 			return
 		}
 		n := g.R.Intn(4)
+		if g.LongLists {
+			n = g.longList(t, n)
+		}
 		if deep {
 			n = 0
 		}
@@ -499,7 +522,7 @@ func (g *Gen) fill(v reflect.Value, tag string, depth int) {
 			return // recursion guard for non-optional self references: leave nil (encode will report an error)
 		}
 		p := reflect.New(t.Elem())
-		g.fill(p.Elem(), "", depth+1)
+		g.fill(p.Elem(), tagViaPointer, depth+1)
 		v.Set(p)
 	case reflect.Struct:
 		if _, ok := t.FieldByName("SumType"); ok && t.Field(0).Type == tSumType {
